@@ -114,6 +114,13 @@ structure Table where
 /-- a successful `Release`: the directory is removed, then the unit is deleted from the index -/
 def release (t : Table) (id : ID) : Table := { index := t.index.filter (· != id), dirs := t.dirs.filter (· != id) }
 
+/-- `Release(force)`: up to three attempts to remove the directory; when they all fail a release that is
+not forced fails and changes nothing, a forced one deletes the unit from the index only -/
+def releaseResult (t : Table) (id : ID) (removeOK force : Bool) : Table × Bool :=
+  if removeOK then (release t id, true)
+  else if force then ({ t with index := t.index.filter (· != id) }, true)
+  else (t, false)
+
 /-- `findUnit`: in the index, or found again on disk -/
 def known (t : Table) (id : ID) : Bool := t.index.contains id || t.dirs.contains id
 
